@@ -4,6 +4,7 @@ import (
 	"fmt"
 	"strings"
 	"sync"
+	"sync/atomic"
 	"time"
 
 	"ergo.services/ergo/gen"
@@ -92,7 +93,7 @@ func probeEarlyTerminate(v *victim, d time.Duration) {
 
 func runProc(c pcase, scenario string) {
 	id := c.id()
-	if !hk.Want(id) {
+	if !hk.Want(id) || breakerOpen() {
 		return
 	}
 	r := &result{}
@@ -341,9 +342,11 @@ func runProc(c pcase, scenario string) {
 // ---------------------------------------------------------------------------
 // table: single causes in the other callbacks, wrapped errors, link exits
 
+var tseq atomic.Int64
+
 func runTable(kind, what string) {
 	id := fmt.Sprintf("T/%s/%s", kind, what)
-	if !hk.Want(id) {
+	if !hk.Want(id) || breakerOpen() {
 		return
 	}
 	r := &result{}
@@ -434,6 +437,61 @@ func runTable(kind, what string) {
 			}
 			done(err)
 		}
+	case "event-err", "event-panic":
+		// the victim subscribes to an event of a producer; the event's payload makes HandleEvent fail
+		producer, _, err := spawnAgent(n, id+"/producer")
+		if err != nil {
+			r.incon = "spawn producer"
+			break
+		}
+		cleanup = append(cleanup, producer)
+		name := gen.Atom(fmt.Sprintf("c05ev%d", tseq.Add(1)))
+		rd := make(chan gen.Ref, 1)
+		n.Send(producer, regEvent{Name: name, Done: rd})
+		var token gen.Ref
+		select {
+		case t, ok := <-rd:
+			if !ok {
+				r.incon = "register event failed"
+			}
+			token = t
+		case <-time.After(5 * time.Second):
+			r.incon = "watchdog: register event"
+		}
+		if r.incon != "" {
+			break
+		}
+		ld := make(chan error, 1)
+		n.Send(v.pid, linkEvent{Ev: gen.Event{Name: name, Node: n.Name()}, Done: ld})
+		select {
+		case err := <-ld:
+			if err != nil {
+				r.incon = "link event: " + err.Error()
+			}
+		case <-time.After(5 * time.Second):
+			r.incon = "watchdog: link event"
+		}
+		if r.incon != "" {
+			break
+		}
+		var msg any = errHandler
+		exact = "err"
+		if what == "event-panic" {
+			msg = "panic"
+			exact = "panic"
+		}
+		done := v.begin(exact)
+		v.mustEnd.Store(true) // delivered through the producer: only termination is a settled state
+		sd := make(chan error, 1)
+		err = n.Send(producer, sendEvent{Name: name, Token: token, Msg: msg, Done: sd})
+		if err == nil {
+			select {
+			case err = <-sd:
+			case <-time.After(5 * time.Second):
+				err = errWatchdog
+			}
+		}
+		done(err)
 	case "fexit3":
 		for k := 0; k < 3; k++ {
 			issueAct(v, nil, "fexit")
